@@ -19,7 +19,7 @@ import (
 )
 
 func c13Dir() string {
-	d := filepath.Join(os.TempDir(), "ytcheck-c13")
+	d := procTmp("c13")
 	_ = os.MkdirAll(d, 0o755)
 	return d
 }
@@ -461,6 +461,12 @@ func jsonNorm(v any) any {
 			l[i] = jsonNorm(c)
 		}
 		return l
+	case json.Number:
+		if i, err := x.Int64(); err == nil {
+			return int(i)
+		}
+		f, _ := x.Float64()
+		return f
 	case float64:
 		if x == float64(int(x)) {
 			return int(x)
@@ -539,7 +545,9 @@ func c13Export(r *rand.Rand, idx int) Case {
 		case "yaml":
 			derr = yaml.Unmarshal(content, &back)
 		case "json":
-			derr = json.Unmarshal(content, &back)
+			jd := json.NewDecoder(bytes.NewReader(content))
+			jd.UseNumber()
+			derr = jd.Decode(&back)
 			back, _ = jsonNorm(back).(map[string]any)
 		default:
 			derr = props.DecoderFn(bytes.NewReader(content), &back)
